@@ -40,6 +40,27 @@ CHECKS = {
 }
 
 
+def generic_replay(mod, arg: str, tier: str, path: str) -> int:
+    """Show a recorded violation and re-run the check of its property: exit 1 if the same fingerprint
+    (failing input class) is reported again on the current tree, 0 otherwise."""
+    import io
+    import json
+    from contextlib import redirect_stdout
+    rec = json.load(open(path))
+    v = rec.get('violation', {})
+    print(f"replay of {path}: property {rec.get('property')} fingerprint {v.get('fingerprint')}")
+    print('  ' + str(v.get('what', ''))[:600])
+    buf = io.StringIO()
+    with redirect_stdout(buf):
+        rc = mod.main(arg, tier)
+    out = buf.getvalue()
+    again = f"fingerprint: {v.get('fingerprint')}" in out
+    print('reproduced on the current tree' if again else 'not reproduced on the current tree')
+    if again:
+        print(f"VIOLATION property={rec.get('property')} replay={path}")
+    return 1 if again else (rc if rc == 2 else 0)
+
+
 def main() -> int:
     ap = argparse.ArgumentParser()
     ap.add_argument('--property', required=True)
@@ -55,7 +76,7 @@ def main() -> int:
     try:
         mod = importlib.import_module(modname)
         if a.replay:
-            return mod.replay_file(a.replay)
+            return generic_replay(mod, arg, a.tier, a.replay)
         return mod.main(arg, a.tier)
     except SystemExit:
         raise
